@@ -33,7 +33,8 @@ PROBES = ["copy_of_copy", "nice_on_scale_with_living_relative",
           "clamp_on_aliased", "magnitude_tiny", "magnitude_huge", "rejected_call_raised",
           "readonly_op", "unobserved_step", "range_list_edited_in_place_and_passed_again",
           "foreign_library_activity", "constructed_with_arguments", "getter_to_setter_transfer",
-          "range_list_shared_through_constructor", "deepcopy_of_scale", "long_copy_chain", "end_point_nudged"]
+          "range_list_shared_through_constructor", "deepcopy_of_scale", "long_copy_chain", "end_point_nudged",
+          "custom_interpolator_bystander"]
 
 RULE = (
     "Each run draws (from one PRNG seeded by sha256(VERIF_SEED:scale:i)) a magnitude regime "
@@ -153,6 +154,8 @@ def gen_plan(rng, tier):
             pool += 1
         elif r < copy_p + nice_p + 0.115:
             ops.append(["copy_chain", i, rng.choice([40, 1200])])
+        elif r < copy_p + nice_p + 0.13:
+            ops.append(["bystander", i])
         elif r < copy_p + nice_p + 0.22:
             d = _pair(rng, lo, hi, style)
             if rng.random() < 0.03:
@@ -422,6 +425,7 @@ def _run(plan):
     next_family = 1
     generation = [0]
     exempt = {}      # id(scale) -> setters still needed after a rejected call
+    bystanders = []    # scales with a custom interpolator, alive but not judged
     passed_range = {}  # id(scale) -> the list object the caller last passed to range()
     last_snap = {}   # id(scale) -> snapshot taken at the last observation
     touched = set()  # ids of scales that were the target of a state-changing op since then
@@ -444,7 +448,7 @@ def _run(plan):
         aliased = target is not None and sum(1 for f in family if f == family[op[1]]) > 1
         outcome = "ok"
         new_scale = None
-        readonly = kind in ("ticks", "tickformat", "call", "invert", "foreign")
+        readonly = kind in ("ticks", "tickformat", "call", "invert", "foreign", "bystander")
         try:
             if kind == "new" and len(op) > 1 and op[1] == "args":
                 # constructor arguments instead of setters (fresh lists, never touched again)
@@ -508,6 +512,18 @@ def _run(plan):
                     target.nice(op[2])
                 if aliased:
                     bump("probe:nice_on_scale_with_living_relative")
+            elif kind == "bystander":
+                # another scale with the SAME end points and clamp mode but a custom
+                # interpolator is alive in the process (it is not itself judged)
+                d, r, c = _reported(target)
+
+                def _rounding(a, b):
+                    return lambda t: round(a * (1 - t) + b * t)
+
+                bystanders.append(LinearScale(list(d), list(r), _rounding, c))
+                if len(bystanders) > 3:
+                    del bystanders[0]
+                bump("probe:custom_interpolator_bystander")
             elif kind == "deepcopy":
                 # duplicated with the standard library (as copy.deepcopy of an options
                 # dict holding a scale does); must be as independent as copy()
